@@ -58,7 +58,15 @@ theorem levelsFor_pos (np : Nat) : 1 ≤ levelsFor np := by unfold levelsFor; om
 theorem p2dAllPairs_par {g np : Nat} (h : 2 ≤ np) (rt : RangeType) :
     p2dAllPairs g (planInit np) true rt =
       pairsOf (binStart g (2 ^ levelsFor np)) rt (2 ^ levelsFor np) (squaresOf (levelsFor np)) := by
-  rw [planInit_ge2 h]; rfl
+  rw [planInit_ge2 h]
+  have hb : (2 ^ levelsFor np == 1) = false := by
+    have : 2 ≤ 2 ^ levelsFor np := by
+      calc 2 = 2 ^ 1 := rfl
+        _ ≤ 2 ^ levelsFor np := Nat.pow_le_pow_right (by omega) (levelsFor_pos np)
+    have := levelsFor_pos np
+    simp; omega
+  simp only [p2dAllPairs, runsSequential, Bool.not_true, Bool.false_or, hb, Bool.false_eq_true, if_false]
+  rfl
 
 /-- `pairs_covered_once`, parallel branch (`numProcessors ≥ 2` reaches `init`), every grid size and range type:
 the user invocations `task.execute(i, j)` of one `Parallel2DExecutor::execute` contain every pair of the requested
@@ -70,13 +78,15 @@ theorem pairs_covered_once (g np : Nat) (h : 2 ≤ np) (rt : RangeType) :
   have hb := binStart_ok g (2 ^ levelsFor np) (Nat.two_pow_pos _)
   exact ⟨pairsOf_nodup hb (levelsFor_pos np) rt, mem_pairsOf_iff hb (levelsFor_pos np) rt⟩
 
-/-- `pairs_covered_once`, sequential branch (`executor == 0`, one triangle of width 1 over the single bin). -/
-theorem pairs_covered_once_seq (g np : Nat) (h : np < 2) (rt : RangeType) :
-    (p2dAllPairs g (planInit np) false rt).Nodup ∧
-    ∀ i j, (i, j) ∈ p2dAllPairs g (planInit np) false rt ↔ InRange rt g i j := by
+/-- `pairs_covered_once`, sequential branch (single bin: `numProcessors < 2`, with or without an executor — one
+triangle of width 1 over everything, run by the caller). -/
+theorem pairs_covered_once_seq (g np : Nat) (h : np < 2) (hasExecutor : Bool) (rt : RangeType) :
+    (p2dAllPairs g (planInit np) hasExecutor rt).Nodup ∧
+    ∀ i j, (i, j) ∈ p2dAllPairs g (planInit np) hasExecutor rt ↔ InRange rt g i j := by
   have hp : planInit np = ⟨1, []⟩ := by simp [planInit, h]
   rw [hp]
-  simp only [p2dAllPairs, Bool.false_eq_true, if_false]
+  have hs : runsSequential ⟨1, []⟩ hasExecutor = true := by simp [runsSequential]
+  simp only [p2dAllPairs, hs, if_true]
   rw [triPairs_eq]
   refine ⟨wedge_nodup _ _ _ _, ?_⟩
   intro i j
@@ -94,22 +104,25 @@ theorem pairs_covered_once_ctorOwn (g np : Nat) (rt : RangeType) :
   simp only [ctorOwn]
   by_cases h : 2 ≤ min np (g / 2)
   · rw [decide_eq_true h]; exact pairs_covered_once g _ h rt
-  · rw [decide_eq_false h]; exact pairs_covered_once_seq g _ (by omega) rt
+  · rw [decide_eq_false h]; exact pairs_covered_once_seq g _ (by omega) false rt
 
-/-- what `Parallel2DExecutor(gridSize, ParallelExecutor&)` executes when the machine reports at least two
-processors (the partition is sized from the machine, not from the executor handed in). -/
-theorem pairs_covered_once_ctorExt (g ncpu : Nat) (h : 2 ≤ ncpu) (rt : RangeType) :
+/-- what `Parallel2DExecutor(gridSize, ParallelExecutor&)` executes, for **every** processor count the machine
+reports (the partition is sized from the machine, not from the executor handed in): every pair of the range
+exactly once. -/
+theorem pairs_covered_once_ctorExt (g ncpu : Nat) (rt : RangeType) :
     (p2dAllPairs g (ctorExt ncpu).1 (ctorExt ncpu).2 rt).Nodup ∧
-    ∀ i j, (i, j) ∈ p2dAllPairs g (ctorExt ncpu).1 (ctorExt ncpu).2 rt ↔ InRange rt g i j :=
-  pairs_covered_once g ncpu h rt
+    ∀ i j, (i, j) ∈ p2dAllPairs g (ctorExt ncpu).1 (ctorExt ncpu).2 rt ↔ InRange rt g i j := by
+  by_cases h : 2 ≤ ncpu
+  · exact pairs_covered_once g ncpu h rt
+  · exact pairs_covered_once_seq g ncpu (by omega) true rt
 
-/-- FINDING (transcription of the current code): on a machine that reports fewer than two processors,
-`Parallel2DExecutor(gridSize, ParallelExecutor&)` keeps a non-null executor with `bins = 1`, so `execute` issues
-`executor->execute(triangle, bins/2 = 0)` and no pass: *no pair is executed at all* (and `finish` is never called).
-The hypothesis `2 ≤ ncpu` of `pairs_covered_once_ctorExt` cannot be dropped. -/
-theorem ctorExt_one_cpu_runs_nothing (g ncpu : Nat) (h : ncpu < 2) (rt : RangeType) :
-    p2dAllPairs g (ctorExt ncpu).1 (ctorExt ncpu).2 rt = [] := by
-  simp [ctorExt, planInit, h, p2dAllPairs, p2dRounds]
+/-- the one-processor configuration of the external-executor constructor (finding F10, fixed in /repo by taking
+the sequential branch when there is a single bin; before the fix `execute` issued `executor->execute(triangle, 0)`
+and no pass, i.e. ran nothing): it now runs the single width-1 triangle on the caller and covers the range. -/
+theorem ctorExt_one_cpu_sequential (g ncpu : Nat) (h : ncpu < 2) (rt : RangeType) :
+    runsSequential (ctorExt ncpu).1 (ctorExt ncpu).2 = true ∧
+    ∀ i j, (i, j) ∈ p2dAllPairs g (ctorExt ncpu).1 (ctorExt ncpu).2 rt ↔ InRange rt g i j := by
+  refine ⟨by simp [ctorExt, planInit, h, runsSequential], (pairs_covered_once_seq g ncpu h true rt).2⟩
 
 example : ¬ InRange .half 3 2 1 → False := fun h => h (by simp [InRange])   -- the range is not empty there
 
